@@ -8,7 +8,9 @@ SPEC = {
         Suite(name="chartcfg", harness="vh_chartcfg", runner="chartcfg",
               model_deps=["theories/Model/ChartCfg.vo", "theories/Model/ConfigGen.vo"],
               quick_n=40000, thorough_n=300000,
-              rule="cases: key table by reflection (1); record sets rendered by the harness's own renderer, compared byte for "
+              rule="cases: key table by reflection (1); 25 valid record sets with ONE physical line of 65535, 65536, 65537, "
+                   "65538..95537 and one of 4095..65534 bytes, in each of five shapes (long plain value, bucket list on one line, "
+                   "long comment after a value, long comment line, one long bucket in a one-per-line list); record sets rendered by the harness's own renderer, compared byte for "
                    "byte with the model's render, parsed by the real chartconfig.Parse (40%: 0-6 records, every field "
                    "optional, repeated issue, bucket lists on one line or one per line, random blanks/comments/filler "
                    "lines/empty records, int64 boundary depths, float bit patterns incl. -0/Inf/NaN, a few deliberately "
@@ -51,7 +53,8 @@ SPEC = {
         "strconv.ParseFloat / FormatFloat: answers supplied per case by the harness (oracle table); theorem premise float_ok",
         "go/version.IsValid/Compare and semver.IsValid/Compare/Canonical/Prerelease: answers supplied per case by the harness "
         "as validity flags and ranks of a total preorder; theorem premises: transitive, total, antisymmetric",
-        "strings.TrimSpace / TrimRightFunc(unicode.IsSpace) behave as Lib/Bytes.trim_space / Lib/Text.trim_right_space (sampled)",
+        "strings.TrimSpace / TrimRightFunc(unicode.IsSpace) behave as Lib/Bytes.trim_space / Lib/Text.trim_right_space (sampled); "
+        "the model calls the linear-time twins ftrim_space / fhas_suffix, proved equal to the Lib/Bytes functions",
         "Go's map iteration order does not matter for the key match (proved: at most one key matches) nor for the programs (sorted by name afterwards)",
         "no int overflow in padVersions: version components + paddings < 2^63",
     ],
